@@ -56,6 +56,9 @@ AuxHashMap<A>* AuxHashMap<A>::deserialize(const void* bytes, size_t len,
   } else { // updatable
     lgArrInts = lgAuxArrInts;
   }
+  if (lgArrInts > lgConfigK) { // at most k slots can be exceptions
+    throw std::invalid_argument("Possible corruption: aux array size 2^" + std::to_string(lgArrInts) + " for lgConfigK " + std::to_string(lgConfigK));
+  }
   
   const uint32_t configKmask = (1 << lgConfigK) - 1;
 
@@ -104,6 +107,9 @@ AuxHashMap<A>* AuxHashMap<A>::deserialize(std::istream& is, uint8_t lgConfigK,
     lgArrInts = HllUtil<A>::computeLgArrInts(HLL, auxCount, lgConfigK);
   } else { // updatable
     lgArrInts = lgAuxArrInts;
+  }
+  if (lgArrInts > lgConfigK) { // at most k slots can be exceptions
+    throw std::invalid_argument("Possible corruption: aux array size 2^" + std::to_string(lgArrInts) + " for lgConfigK " + std::to_string(lgConfigK));
   }
 
   AuxHashMap<A>* auxHashMap = new (ahmAlloc(allocator).allocate(1)) AuxHashMap<A>(lgArrInts, lgConfigK, allocator);
